@@ -371,6 +371,19 @@ pub fn gen_c12(tier: &str, seed: u64, out: &str) -> Value {
             }
         }
     }
+    // children (and parents) whose curve position is special as a number (decimal round, next to 2^16 / 2^32 / 2^53)
+    for r in 3..=29 {
+        let ns = crate::ids::numeric_specials((r - 1) as usize, &mut rng);
+        for (i, &s) in ns.iter().enumerate() {
+            if tier != "thorough" && (i + r as usize) % 4 != 0 { continue; }
+            let c = a5::core::serialization::serialize(&a5::core::utils::A5Cell { origin_id: rng.below(12) as u8, segment: rng.below(5) as usize, s, resolution: r }).unwrap();
+            let p = a5::cell_to_parent(c, None).unwrap();
+            t.emit(childgeom_event(p, c));
+            n_geo += 1;
+            if r < 29 { for cc in a5::cell_to_children(c, None).unwrap() { t.emit(childgeom_event(c, cc)); n_geo += 1; } }
+        }
+        t.cut();
+    }
     // parents at the special points (poles, face centres / vertices / edge midpoints, round coordinates such as the prime
     // meridian and the equator)
     for (i, sp) in crate::geo::special_points().iter().enumerate() {
